@@ -185,6 +185,13 @@ int attr_tree_set_value(struct attr_tree *tree, const char *path_str,
 	return -1;
     }
 
+    /* a string value includes its terminating NUL */
+    if (type == xcm_attr_type_str && memchr(value, '\0', len) == NULL) {
+	LOG_ATTR_TREE_SET_INVALID_LEN(log_ref, path_str, len);
+	errno = EINVAL;
+	return -1;
+    }
+
     struct attr_path *path = attr_path_parse(path_str, true);
 
     if (path == NULL) {
